@@ -496,7 +496,8 @@ def run(ctx):
             try:
                 with warnings.catch_warnings():
                     warnings.simplefilter("ignore")
-                    merged = db2.merge_all(exclude_components=exclude)
+                    # an empty featuretypes_groups means the default single group (interface.py L1741-1743)
+                    merged = db2.merge_all(exclude_components=exclude, **({"featuretypes_groups": ()} if exclude else {}))
             except Exception as ex:
                 res.oracle_failures.append(("merge_all raised %r" % ex, dict(inp, exclude_components=exclude)))
                 continue
